@@ -143,6 +143,23 @@ JsonOf(a) ==
 
 HtmlSafeJson(cs) == \A k \in 1..Len(cs) : cs[k] \notin {cLT, cGT, cAMP, cSQ}
 
+\* How a text reaches tojson inside a template (autoescape on).  A safety mark is never a
+\* licence: whatever the provenance, tojson serialises the TEXT of the value it receives
+\* (JsonOf treats "s" and "m" alike) and the four replacements always apply.
+\*   data        the value as handed over by the application (plain or Markup)
+\*   safe        v|safe            string        v|string (keeps the mark)
+\*   escape      v|escape          forceescape   v|forceescape
+\*   capture     {% set w %}PRE{{ v }}POST{% endset %}{{ w|tojson }}   (a captured block is Markup)
+\*   macro       {% macro m(x) %}PRE{{ x }}POST{% endmacro %}{{ m(v)|tojson }}
+\*   callblock   {% call m() %}PRE{{ v }}POST{% endcall %} with m = {{ caller()|tojson }}
+Sources == {"data", "safe", "string", "escape", "forceescape", "capture", "macro", "callblock"}
+Reaches(src, a, pre, post) ==
+    CASE src \in {"data", "string"} -> a
+      [] src = "safe" -> M(StrOf(a))
+      [] src = "escape" -> EscapeV(a)
+      [] src = "forceescape" -> ForceEscapeV(a)
+      [] src \in {"capture", "macro", "callblock"} -> M(pre \o EscapeV(a).v \o post)
+
 (* ------------------------------------------------------------- 3. xmlattr *)
 \* characters that could leave the attribute name: the documented rule (no spaces,
 \* / > =) with "space" read as ASCII whitespace -- tab, LF, FF and blank end the name in
